@@ -1,6 +1,7 @@
 package props
 
 import (
+	"strings"
 	"sync"
 	"encoding/json"
 	"fmt"
@@ -160,6 +161,7 @@ func runC17(r *mon.Run) {
 	r.FloorAccept("complete", 2)
 	r.FloorFam("binding", 5)
 	r.FloorFam("leaf-alter", 20)
+	r.FloorFam("leaf-order-shift", 8)
 	r.FloorFam("aspp-simulated", 1)
 	r.FloorFam("component-cheat", 30)
 	r.FloorFam("component-position-alter", 500)
@@ -368,6 +370,60 @@ func c17Key(r *mon.Run, rng *rand.Rand, bits, nb, nLeaves, keyNo int) {
 		}
 		if t < 3 {
 			r.Sample(map[string]any{"altered_leaf": l.path, "kind": kind, "operator": op, "key": desc})
+		}
+	}
+	// (c') responses moved by the group order: every relation in the exponent still holds (the reconstructed commitments, and so
+	// the challenge, are the same), only the size limits of the range proofs - which tie the committed values to the integers -
+	// can refuse such a proof. One leaf of every kind of range-proof result, first and last position.
+	if rt.GroupPrime != nil {
+		gorder := new(big.Int).Rsh(rt.GroupPrime, 1)
+		for _, kind := range kindNames {
+			if !strings.Contains(kind, "Results") && os.Getenv("VERIF_C17_ALLSHIFT") == "" {
+				continue
+			}
+			// of a range proof's results only those of the range secret are limited in size (the hider's are exponents like any
+			// other): first and last position of the non-hider entries
+			var pos []int
+			for _, li := range kinds[kind] {
+				if !strings.Contains(leaves[li].path, "hider]") {
+					pos = append(pos, li)
+				}
+			}
+			if len(pos) == 0 {
+				continue
+			}
+			sel, shifts := []int{pos[0], pos[len(pos)-1]}, []int64{1, 3, -1, -2}
+			if !r.Thorough() {
+				sel, shifts = []int{pos[(len(kind)%2)*(len(pos)-1)]}, []int64{1, -1}
+			}
+			for _, li := range sel {
+				l := leaves[li]
+				orig := l.get()
+				for _, k := range shifts {
+					l.set(add(orig, mul(gorder, bi(k))))
+					inflight(fmt.Sprintf("component %s moved by %d group orders, %s", l.path, k, desc))
+					ok, p := verify(s, rt)
+					inflight("")
+					l.set(orig)
+					out := outcome(ok, nil)
+					if p {
+						out = "panic"
+					}
+					r.Eval("leaf-order-shift", out)
+					r.Distinct("leaf-order-shift", desc, l.path, k)
+					if ok && os.Getenv("VERIF_C17_ALLSHIFT") != "" {
+						fmt.Println("ALLSHIFT accepted:", kind)
+						continue
+					}
+					if ok {
+						r.Violation("C17/oversized-response-accepted", fmt.Sprintf("key proof still verifies with %s moved by %d group orders: the range proof's size limit does not hold (%s)", l.path, k, desc),
+							map[string]any{"key": keyRep, "leaf": l.path, "orders": k, "original": dumpInt(orig)})
+					}
+				}
+				if len(pos) == 1 {
+					break
+				}
+			}
 		}
 	}
 	// the almost-safe-prime-product part simulated after the fact: for the proof's own challenge every round's commitment is
